@@ -14,6 +14,9 @@ Check(o) ==
   /\ Expect(o, "no-match-labels", o.labels_notime = Labels(o.items), Labels(o.items))
   /\ Expect(o, "no-match-subject", o.notime_is_nomatch = 0 \/ o.subj_notime = Pick(o.items, {"I", "O"}), Pick(o.items, {"I", "O"}))
   /\ Expect(o, "no-match-resolution", o.notime_is_nomatch = 0 \/ o.val_notime.k = "F", o.val_notime)
+  \* the subject as a STRING is its words joined by single blanks on either path: no double, leading or trailing blank, and '-'
+  \* separates words whether or not a time expression was found (strnorm: as is / hashtags removed / time expression removed)
+  /\ Expect(o, "subject-string-not-its-words-joined-by-single-blanks", o.strnorm = <<1, 1, 1>>, o.strnorm)
 ASSUME TLCSet(7, Obs)
 TInit == LET O == TLCGet(7) IN l \in 1..Len(O) /\ Check(O[l]) /\ items = <<>>
 TNext == UNCHANGED <<l, items>>
